@@ -167,6 +167,23 @@ async fn start(cfg: &Value, discover_delay_ms: u64) -> Running {
     Running { port, stop, handle, seen, ok }
 }
 
+/// The listener is not accepting.  If `listen()` has RETURNED although nobody asked it to stop (and not because the port was taken), that is
+/// an observation about the code under test (family "returned-early", judged by Trace_Listener); anything else is a harness error.
+async fn not_up(run: Running, fam: &str, sc: &Value) -> Value {
+    if run.handle.is_finished() {
+        let how = match run.handle.await {
+            Ok(Ok(())) => Some("ok".to_string()),
+            Ok(Err(e)) if e.contains("in use") || e.contains("ermission") => None,
+            Ok(Err(e)) => Some(format!("error: {e}")),
+            Err(_) => Some("panic".to_string()),
+        };
+        if let Some(how) = how {
+            return json!({"family": "returned-early", "of": fam, "cfg": sc["cfg"], "returned": how});
+        }
+    }
+    json!({"family": fam, "harnessError": "the listener did not come up on its port"})
+}
+
 fn label_addr(l: &str) -> SocketAddr {
     match l {
         "ipA" => "203.0.113.10:40001".parse().unwrap(),
@@ -224,7 +241,7 @@ fn header_bytes(hdr: &str, src: SocketAddr, port: u16) -> Vec<u8> {
 async fn run_c15(sc: &Value) -> Value {
     let run = start(&sc["cfg"], 0).await;
     if !run.ok {
-        return json!({"family": "C15", "harnessError": "the listener did not come up on its port"});
+        return not_up(run, "C15", sc).await;
     }
     // the readiness probe of `start` came from 127.0.0.1 without a header: with the limiter on and PROXY off it consumed
     // one admission of p1 -- the history accounts for it explicitly as connection 0
@@ -435,7 +452,7 @@ async fn good_client_from(port: u16, proxied: bool, wait_ms: u64, kind: &str, sr
 async fn run_c16(sc: &Value) -> Value {
     let run = start(&sc["cfg"], 0).await;
     if !run.ok {
-        return json!({"family": "C16", "harnessError": "the listener did not come up on its port"});
+        return not_up(run, "C16", sc).await;
     }
     let proxied = sc["cfg"]["proxy"].as_str().unwrap_or("off") != "off";
     let mut parked = vec![];
@@ -655,7 +672,7 @@ async fn run_c17(sc: &Value) -> Value {
     let delay = sc["discoverDelayMs"].as_u64().unwrap_or(1200);
     let run = start(&sc["cfg"], delay).await;
     if !run.ok {
-        return json!({"family": "C17", "harnessError": "the listener did not come up on its port"});
+        return not_up(run, "C17", sc).await;
     }
     let t0 = Instant::now();
     let port = run.port;
@@ -785,7 +802,7 @@ impl<S: tracing::Subscriber + for<'a> tracing_subscriber::registry::LookupSpan<'
 async fn run_c15race(sc: &Value) -> Value {
     let run = start(&sc["cfg"], 0).await;
     if !run.ok {
-        return json!({"family": "C15race", "harnessError": "the listener did not come up on its port"});
+        return not_up(run, "C15race", sc).await;
     }
     let n = sc["n"].as_u64().unwrap_or(4);
     let port = run.port;
